@@ -143,11 +143,29 @@ def drop_closes(r, F):
     ok = bool(calls) and bool(sp)
     if ok:
         g, b = calls[0]
-        names = []
+        got = []
         for a in b.term.args:
             sl = backslice(g, a, "prov")
-            names.append(sorted(sl.upvars)[:1])
-        ok = [n[0] if n else None for n in names] == ["closed", "memory", "storage", "flush_on_close"]
+            fld = None
+            # follow the captured variable back to the field of `self` it was read from (through nested async blocks / closures)
+            cur, ups = g, set(sl.upvars)
+            for _ in range(4):
+                srcs = mir.upvar_sources(F, cur)
+                nxt, cur2 = set(), cur
+                for u in ups:
+                    if u in srcs:
+                        par, o = srcs[u]
+                        psl = backslice(par, o, "prov")
+                        for of, n in psl.fields:
+                            if of.endswith("cache::Inner"):
+                                fld = n
+                        nxt |= psl.upvars
+                        cur2 = par
+                if fld or not nxt:
+                    break
+                cur, ups = cur2, nxt
+            got.append(fld)
+        ok = got == ["closed", "memory", "storage", "flush_on_close"]
     r.require(ok, d, "Drop spawns close_inner(closed, memory, storage, flush_on_close)", "dropping the last handle performs the same graceful close",
               "dropping the hybrid cache does not run close_inner with its own flag / tiers", ln=d.lo)
     # and close() forwards the same four
